@@ -8,7 +8,7 @@ from ..loader import shape_error, anchor_error
 from ..sx import Walker, State
 from ..effects import Effects
 from .. import orders
-from ..util import body_nodocstring, names_stored, unparse
+from ..util import subst_names, single_assignments, add_terms, body_nodocstring, names_stored, unparse
 
 TRACK = 'tracklib.core.track.Track'
 
@@ -103,18 +103,7 @@ def rule_S(ctx):
         okp = vr(e.args[0]) == 'self.getObs(%s)' % iv and g == ['bool(%s[(%s %% len(%s))])' % (a, iv, a)]
     ctx.check(bool(okp), 'C04.S', f, 'pattern decimation keeps observation i exactly when pattern[i mod len(pattern)] is true, for every i in order',
               witness={'adds': [[vr(x) for x in e.args] for e in adds], 'guards': [[repr(c) for c, _ in e.conds] for e in adds]}, node=f.node, key='pattern')
-    # concatenation
-    f = ctx.prog.func(TRACK + '.__add__')
-    w = Walker(f, loop_mode='skip')
-    ctors = [n for n in ast.walk(f.node) if isinstance(n, ast.Call) and getattr(n.func, 'id', None) == 'Track']
-    okc = False
-    if len(ctors) == 1 and isinstance(ctors[0].args[0], ast.BinOp) and isinstance(ctors[0].args[0].op, ast.Add):
-        st = [o for o in w.run(body_nodocstring(f), State()) if o.kind == 'return'][0].state
-        l = vr(w.ex(ctors[0].args[0].left, State({k: v for k, v in st.env.items() if k in ('t1', 't2')})))
-        r = vr(w.ex(ctors[0].args[0].right, State({k: v for k, v in st.env.items() if k in ('t1', 't2')})))
-        okc = l == 'self.__POINTS' and r == '%s.__POINTS' % f.params[1]
-    ctx.check(okc, 'C04.S', f, 'concatenation  a + b  is the observations of a followed by those of b', witness={'constructor': unparse(ctors[0]) if ctors else None},
-              node=f.node, key='concat')
+    concat(ctx)
     # __transmitAF copies the map
     t = _m(ctx, '__transmitAF')
     wt = Walker(t, loop_mode='skip')
@@ -123,6 +112,42 @@ def rule_S(ctx):
     ctx.check(len(st) == 1 and vr(st[0].value).endswith('.copy()') and '__analyticalFeaturesDico' in vr(st[0].value), 'C04.F', t,
               'the feature table handed to the result is a copy of the source table (not the same dictionary)',
               witness={'stored': vr(st[0].value) if st else None}, node=t.node, key='copy-map')
+
+
+def concat(ctx):
+    """a + b is the observations of a followed by those of b, on every path (also used by C07: route geometry is built with +)"""
+    f = ctx.prog.func(TRACK + '.__add__')
+    w = Walker(f, loop_mode='skip')
+    fb = body_nodocstring(f)
+    other = f.params[1]
+    n = 0
+    for o in w.run(fb, State()):
+        if o.kind != 'return':
+            continue
+        ctors = [e for e in o.state.events if e.kind == 'call' and e.name == 'Track' and e.args]
+        if len(ctors) != 1:
+            raise shape_error('Track.__add__: result track not constructed once on a path', f.loc())
+        n += 1
+        arg = ctors[0].node.args[0]
+        before = []
+        for s_ in fb:
+            if any(x is ctors[0].node for x in ast.walk(s_)):
+                break
+            before.append(s_)
+        temps = {k: v for k, v in single_assignments(before).items() if k not in f.params and
+                 isinstance(v, ast.BinOp) and isinstance(v.op, ast.Add)}          # a list sum held in a temporary
+        terms = add_terms(subst_names(arg, temps))
+        env = State({k: v for k, v in o.state.env.items()})
+        got = [vr(w.ex(t_, env)) for t_ in terms]
+        pts = lambda x: ['%s.__POINTS' % x, '%s.getObsList()' % x]
+        okc = len(got) == 2 and got[0] in pts(vr(o.state.env.get('t1', Rat.atom('self')))) + pts('self') and \
+            got[1] in pts(vr(o.state.env.get('t2', Rat.atom(other)))) + pts(other)
+        ctx.check(okc, 'C04.S', f, 'concatenation  a + b  is the observations of a followed by those of b',
+                  witness={'observations of the result': got, 'path': [repr(c) for c, _ in o.state.conds],
+                           'why': 'every observation of both operands must come out, once, in order (a route geometry built with + loses a vertex otherwise)'},
+                  node=ctors[0].node, key='concat')
+    if n == 0:
+        raise shape_error('Track.__add__: no path returns a track', f.loc())
 
 
 def rule_T(ctx):
